@@ -7,15 +7,16 @@ package run
 //vf:job C17 quick VF_C17_Decode kind=7 par=1..2
 //vf:job C17 thorough VF_C17_Decode kind=6 par=1
 //vf:job C17 quick VF_C17_DecodeMany par=1..2
+//vf:job C17 quick VF_C17_DecodeTick opt_preempt=3
 //vf:job C17 thorough VF_C17_DecodeMany par=3
 //vf:job C17 thorough VF_C17_Decode kind=0..5 par=3
 //vf:job C17 thorough VF_C17_Decode kind=0,1,4 par=2 opt_preempt=2
 //vf:job C17 quick VF_C17_DecodeBig par=2
-//vf:replayE C17 VF_C17_Decode VF_C17_DecodeMany VF_C17_DecodeBig
+//vf:replayE C17 VF_C17_Decode VF_C17_DecodeMany VF_C17_DecodeBig VF_C17_DecodeTick
 //vf:opt C17 preempt=1 delaybound=1
 //vf:stub C17 encoding/json.Marshal: contract model (flat struct -> {"tag":value,...} in field order, strings NOT escaped, integers decimal, error iff a float is NaN/Inf as documented); utils.OpenReadFile/OpenWriteFile and (*os.File).Write/Close: in-memory output; utils.NewRDBLoader: pre-filled closed channel (the parser is C01); time.After: never fires
 //vf:assume C17 base64 on the specification side is encoding/base64 of the standard library (trusted); scores are compared through the trusted FormatFloat/ParseFloat round trip
-//vf:outside C17 JSON text production and escaping (that a printed line parses back as JSON): encoding/json is reflection based and not encodable; file I/O; progress output; more than 3 entries; unsynchronised use of the bufio.Writer by two goroutines (a data race inside bufio's methods: no scheduling point there, see seed C17-agent4); schedules with more than one deviation from round-robin order except for the single-entry runs of the string, list and zset kinds on two workers (thorough)
+//vf:outside C17 JSON text production and escaping (that a printed line parses back as JSON): encoding/json is reflection based and not encodable; file I/O; progress output; more than 3 entries; unsynchronised use of shared objects is visible only through its effect at scheduling points (VF_C17_DecodeTick: progress tick vs. output write), not as a memory-model level race; schedules with more than one deviation from round-robin order except for the single-entry runs of the string, list and zset kinds on two workers (thorough)
 
 import (
 	"bufio"
@@ -40,8 +41,12 @@ func vfDecodeEnv(pipe chan *rdb.BinEntry) {
 	vfStub("github.com/alibaba/RedisShake/redis-shake/common.OpenWriteFile", func(name string) *os.File { return new(os.File) })
 	vfStub("(*os.File).Close", func(f *os.File) error { return nil })
 	timers := vfParam("timer", 0)
+	if vfForcedTimers > 0 {
+		timers = vfForcedTimers
+	}
+	slowOut := timers > 0
 	vfStub("(*os.File).Write", func(f *os.File, b []byte) (int, error) {
-		if vfParam("timer", 0) > 0 {
+		if slowOut {
 			vfYield() // output storage may be slow: the write is a scheduling point
 		}
 		vfOut = append(vfOut, b...)
@@ -53,12 +58,16 @@ func vfDecodeEnv(pipe chan *rdb.BinEntry) {
 		ch := make(chan time.Time, 1)
 		if timers > 0 && vfPick("fire", 2) == 1 {
 			timers--
-			ch <- time.Time{}
+			go func() { ch <- time.Time{} }() // fires when the scheduler gets to it: at any later moment
 		}
 		return ch
 	})
 	_ = utils.CheckpointKey
 }
+
+var vfForcedTimers int
+
+func vfSetParamTimer(n int) { vfForcedTimers = n }
 
 type vfKV struct {
 	name string
@@ -416,4 +425,27 @@ func VF_C17_DecodeBig() {
 	luaFirst := vfAnd(luaAt(0), vfEqBytes(out[nL:], S))
 	vfAssert(vfOr(smallFirst, luaFirst), "the text of a large entry was interleaved with another entry's line")
 	vfAssertTwin(len(out) == 0, "twin")
+}
+
+// two entries, one worker, and a progress timer that fires at a moment the scheduler chooses while
+// the output write is a scheduling point: whatever the main loop does on a tick must not disturb the
+// writer goroutine (both lines arrive, the run ends normally)
+func VF_C17_DecodeTick() {
+	conf.Options.Parallel = 1
+	k1, k2 := []byte("ka"), []byte("kb")
+	e1, w1 := vfMakeEntry(0, k1, 3, 0)
+	e2, w2 := vfMakeEntry(0, k2, 3, 0)
+	pipe := make(chan *rdb.BinEntry, 2)
+	pipe <- e1
+	pipe <- e2
+	close(pipe)
+	vfSetParamTimer(1)
+	vfDecodeEnv(pipe)
+	(&CmdDecode{}).decode("in", "out")
+	lines := vfParse(vfOut)
+	vfAssert(len(lines) == 2, "decode mode did not print exactly one line per element")
+	if len(lines) == 2 {
+		vfAssert(vfLineMatches(lines[0], 3, 0, k1, w1[0]) && vfLineMatches(lines[1], 3, 0, k2, w2[0]), "printed lines do not carry the two entries in order")
+	}
+	vfAssertTwin(len(lines) == 0, "twin")
 }
